@@ -20,10 +20,16 @@
                               members to list order; the property leaves it open
    The specification is taken with [quirks_code]: two behaviours the unedited test
    suite pins (KF-C14-null-subscript, KF-C11-isunknown-hard-error) are part of it;
-   props/C14.v and props/C11.v state the documented rule and refute it for the code. *)
+   props/C14.v and props/C11.v state the documented rule and refute it for the code.
+
+   For paths that contain neither an array subscript nor "is unknown" ([quirk_free],
+   proofs/QuirkFree.v) the two switches are never read, so for them the theorem holds
+   with the DOCUMENTED semantics [quirks_ideal] ([C01_query_conforms_to_documented_semantics]);
+   both exclusions are needed ([C01_subscript_exclusion_needed],
+   [C01_isunknown_exclusion_needed]). *)
 From SJ Require Import lib.Base model.Json model.Ast model.ExecLib model.Leaf model.Exec
      spec.Sem spec.Proj model.Parser proofs.RefineDefs proofs.Refine proofs.RefineClosed
-     proofs.RefineWf proofs.RefineWitness.
+     proofs.RefineWf proofs.RefineWitness proofs.QuirkFree.
 
 Theorem C01_query_is_the_trace :
   forall (L : ExecLib) (p : path) (doc : json) (o : opts),
@@ -85,3 +91,79 @@ Example C01_refuted_exists_unary :
   p_query false (sem_of L0 quirks_code p_ex JNull (o0 false)) = QItems [JNull].
 Proof. exact exists_ok_needed. Qed.
 Print Assumptions C01_refuted_exists_unary.
+
+(* ---- conformance to the documented semantics (quirks_ideal) on quirk-free paths ---- *)
+
+(* the executor model returns the projection of the IDEAL trace for every path that
+   contains neither an array subscript nor "is unknown" *)
+Theorem C01_query_conforms_to_documented_semantics :
+  forall (L : ExecLib) (p : path) (doc : json) (o : opts),
+    o_cancel_at o = None -> members_canon L -> p_root p <> [] ->
+    no_kv (p_root p) = true -> exists_ok (p_root p) = true -> ne_ops (p_root p) = true ->
+    quirk_free (p_root p) = true ->
+    forall fuel q, Query L fuel p doc o = Ret q ->
+    qres_sim q (p_query (o_silent o) (sem_of L quirks_ideal p doc o)).
+Proof. exact query_conforms_ideal. Qed.
+Print Assumptions C01_query_conforms_to_documented_semantics.
+
+(* the semantics does not read the quirk switches on such paths *)
+Theorem C01_quirk_switches_irrelevant :
+  forall (L : ExecLib) (Q Q' : quirks) (p : path) (doc : json) (o : opts),
+    quirk_free (p_root p) = true -> sem_of L Q p doc o = sem_of L Q' p doc o.
+Proof. exact sem_of_quirk_free. Qed.
+Print Assumptions C01_quirk_switches_irrelevant.
+
+(* each switch on its own: subscript-free paths do not depend on q_skip_null,
+   "is unknown"-free paths do not depend on q_iu_swallow *)
+Theorem C01_skip_null_switch_irrelevant :
+  forall (L : ExecLib) (Q Q' : quirks) (p : path) (doc : json) (o : opts),
+    q_iu_swallow Q = q_iu_swallow Q' -> index_free (p_root p) = true ->
+    sem_of L Q p doc o = sem_of L Q' p doc o.
+Proof. exact sem_of_index_free. Qed.
+Print Assumptions C01_skip_null_switch_irrelevant.
+
+Theorem C01_iu_swallow_switch_irrelevant :
+  forall (L : ExecLib) (Q Q' : quirks) (p : path) (doc : json) (o : opts),
+    q_skip_null Q = q_skip_null Q' -> isunknown_free (p_root p) = true ->
+    sem_of L Q p doc o = sem_of L Q' p doc o.
+Proof. exact sem_of_isunknown_free. Qed.
+Print Assumptions C01_iu_swallow_switch_irrelevant.
+
+(* non-vacuity: all hypotheses of C01_query_conforms_to_documented_semantics hold of
+   lax $.a ? (@ > 1) on {"a": [1,2,3]} *)
+Example C01_quirk_free_satisfiable :
+  quirk_free (p_root p_wit) = true /\
+  no_kv (p_root p_wit) = true /\ exists_ok (p_root p_wit) = true /\ ne_ops (p_root p_wit) = true /\
+  unary_tail_free (p_root p_wit) = true /\
+  o_cancel_at (o0 false) = None /\ members_canon L0 /\ p_root p_wit <> [] /\
+  Query L0 20 p_wit doc_wit (o0 false) = Ret (QItems [JNum (NInt 2); JNum (NInt 3)]) /\
+  p_query false (sem_of L0 quirks_ideal p_wit doc_wit (o0 false)) = QItems [JNum (NInt 2); JNum (NInt 3)].
+Proof. exact quirk_free_witness. Qed.
+Print Assumptions C01_quirk_free_satisfiable.
+
+(* the subscript exclusion is needed: lax $[0 to 1] on [null, 1] (KF-C14-null-subscript) *)
+Example C01_subscript_exclusion_needed :
+  index_free (p_root p_sub) = false /\ isunknown_free (p_root p_sub) = true /\
+  quirk_free (p_root p_sub) = false /\
+  no_kv (p_root p_sub) = true /\ exists_ok (p_root p_sub) = true /\ ne_ops (p_root p_sub) = true /\
+  sem_of L0 quirks_code p_sub doc_sub (o0 false) = ([JNum (NInt 1)], None) /\
+  sem_of L0 quirks_ideal p_sub doc_sub (o0 false) = ([JNull; JNum (NInt 1)], None) /\
+  sem_of L0 quirks_code p_sub doc_sub (o0 false) <> sem_of L0 quirks_ideal p_sub doc_sub (o0 false) /\
+  Query L0 20 p_sub doc_sub (o0 false) = Ret (QItems [JNum (NInt 1)]) /\
+  ~ qres_sim (QItems [JNum (NInt 1)]) (p_query false (sem_of L0 quirks_ideal p_sub doc_sub (o0 false))).
+Proof. exact subscript_exclusion_needed. Qed.
+Print Assumptions C01_subscript_exclusion_needed.
+
+(* the "is unknown" exclusion is needed: lax ($missing == 1) is unknown with no
+   variable bound (KF-C11-isunknown-hard-error) *)
+Example C01_isunknown_exclusion_needed :
+  isunknown_free (p_root p_iu) = false /\ index_free (p_root p_iu) = true /\
+  quirk_free (p_root p_iu) = false /\
+  no_kv (p_root p_iu) = true /\ exists_ok (p_root p_iu) = true /\ ne_ops (p_root p_iu) = true /\
+  sem_of L0 quirks_code p_iu JNull (o0 false) = ([JBool true], None) /\
+  sem_of L0 quirks_ideal p_iu JNull (o0 false) = ([], Some (EExec "could not find jsonpath variable")) /\
+  sem_of L0 quirks_code p_iu JNull (o0 false) <> sem_of L0 quirks_ideal p_iu JNull (o0 false) /\
+  Query L0 20 p_iu JNull (o0 false) = Ret (QItems [JBool true]) /\
+  ~ qres_sim (QItems [JBool true]) (p_query false (sem_of L0 quirks_ideal p_iu JNull (o0 false))).
+Proof. exact isunknown_exclusion_needed. Qed.
+Print Assumptions C01_isunknown_exclusion_needed.
